@@ -6,7 +6,7 @@
 # Results in <dir>/verify.txt. The worktree is removed afterwards.
 set -u
 D=$(realpath "$1"); NAME=$2; shift 2
-PKGS=${@:-$(cd /repo && GOFLAGS=-mod=mod GOPROXY=off go list ./... | grep -v /rpc | sed "s|github.com/MixinNetwork/mixin|.|")}
+PKGS=${@:-$(cd /repo && GOFLAGS=-mod=mod GOPROXY=off go list ./... | grep -v "mixin/rpc$" | sed "s|github.com/MixinNetwork/mixin|.|")}
 export GOFLAGS=-mod=mod GOPROXY=off
 unset GOTOOLCHAIN GOSUMDB
 W=/tmp/sv/$NAME
